@@ -8,7 +8,7 @@ cp -r /repo/. "$D"/
 if [ "$1" = "-e" ]; then
   sed -i -e "$2" "$D/$3"; shift 3
 else
-  (cd "$D" && git apply --whitespace=nowarn "$1") || { echo "patch failed"; exit 3; }; shift
+  P=$(readlink -f "$1"); (cd "$D" && git apply --whitespace=nowarn "$P") || { echo "patch failed"; exit 3; }; shift
 fi
 [ "$1" = "--" ] && shift
 rc=0
